@@ -53,6 +53,7 @@ def run(ctx):
                  "as %s" % (_ranges(ns), r, wv, back))
         # ---- R1 with EDNS: 12-bit codes (extended rcode in the OPT TTL)
         bad12 = {}
+        badv = {}
         for code in range(4096):
             low = code & 0xF
             hdr_in = {"response_code": ev.call(B["rcode_from"], [low])}
@@ -68,11 +69,18 @@ def run(ctx):
             back = ev.call(B["extract"], [ttl, hdr2])
             if back != r:
                 bad12.setdefault((repr(r), repr(back)), []).append(code)
+            # the rest of the OPT TTL (version, DO bit / flags) was received as zero here and must be written back as zero
+            if ttl & 0x00FFFFFF:
+                badv.setdefault(ttl & 0x00FFFFFF, []).append(code)
         report.nontriv("12-bit rcodes")
         for (r, back), codes in sorted(bad12.items()):
             viol(report, "C11-R1", "RCODE+OPT", "%s->%s" % (r, back),
                  "with EDNS, response codes %s parse as %s but are re-serialised to bits that parse as %s" % (
                      _ranges(codes), r, back))
+        for bits, codes in sorted(badv.items())[:3]:
+            viol(report, "C11-R1", "RCODE+OPT", "version-bits %#x" % bits,
+                 "with EDNS version 0 and no flags, response codes %s are re-serialised with OPT TTL bits %#010x set outside the extended-rcode "
+                 "byte: the EDNS version / flags of the received message are altered" % (_ranges(codes), bits))
         report.sample({"table": "RCODE::from o get_flags", "domain": "16 nibbles + 4096 extended codes",
                        "example": "rcode 5 -> Refused -> 5 -> Refused"})
         # ---- R2: TYPE preserved through dispatch + type_code + u16::from, all codes
